@@ -25,7 +25,8 @@ pub fn generate_qa_report(
     qa_items.sort_by_key(|(qa, _)| *qa as usize);
 
     for item in qa_items {
-        if item.1.len() > 0 {
+        //A pattern is rendered only if it has at least one finding (a line in some file)
+        if item.1.iter().any(|(_, lines)| lines.len() > 0) {
             let qa_target = item.0;
             let mut matches = item.1;
             matches.sort();
